@@ -299,25 +299,27 @@ def runtime_part(run, tier, seed):
     # floor rule on a fine grid: every fraction k/100 for every n <= 200 (products like 0.29 * 100 = 28.999999999999996 lie just below an integer: the rule floors the
     # double product, it does not round it first), fractions within 1e-9 of 0 and 1, and the same for the validation fraction of the remainder; sizes only
     grid = [k / 100 for k in range(101)] + [1e-9, 1 - 1e-9, 0.5 - 1e-12, 1 / 3, 2 / 3]
+    # the end points and inner fractions in other numeric TYPES (the fraction 1 written as the int 1 is still "everything", not "one sample")
+    grid += [0, 1, True, False, np.int64(1), np.int32(0), np.float32(0.25), np.float64(0.5), np.float16(0.5)]
     for n in range(0, 201 if tier == "quick" else 401):
         X = np.zeros((n, 1), dtype=np.float32)
         y = np.arange(n, dtype=np.float32)
         for tsf in grid:
             for vsf in ([None] if n not in (50, 100, 125, 200) else [None] + grid):
-                if vsf is not None and tsf not in (0.0, 0.2, 0.29):
+                if vsf is not None and not any(tsf is t_ or (type(tsf) is float and tsf == t_) for t_ in (0.0, 0.2, 0.29)):
                     continue
-                run.rt(("split-size", n, tsf, vsf))
+                run.rt(("split-size", n, repr(tsf), repr(vsf)))
                 try:
                     tr, te, va = data.split_dataset(X, y, tsf, vsf, False)
                 except Exception as e:
-                    run.violation(MOD + "split_dataset.completes", "split_dataset raised %s: %s" % (type(e).__name__, e), key={"n": n, "test_split": tsf, "val_split": vsf}, replay={"n": n, "test_split": tsf, "val_split": vsf})
+                    run.violation(MOD + "split_dataset.completes", "split_dataset raised %s: %s" % (type(e).__name__, e), key={"n": n, "test_split": repr(tsf), "val_split": repr(vsf)}, replay={"n": n, "test_split": repr(tsf), "val_split": repr(vsf)})
                     continue
                 split = int(np.floor(tsf * n))
                 vsz = 0 if vsf is None else int(np.floor(vsf * (n - split)))
                 got = (len(te[0]), 0 if va is None else len(va[0]), len(tr[0]))
                 if got != (split, vsz, n - split - vsz):
                     run.violation(MOD + "split_dataset.floor_rule_sizes", "n=%d test_split=%r val_split=%r: (test, val, train) sizes %s, the floor rule gives %s" % (n, tsf, vsf, got, (split, vsz, n - split - vsz)),
-                                  key={"n": n, "test_split": tsf, "val_split": vsf}, replay={"n": n, "test_split": tsf, "val_split": vsf, "sizes": got})
+                                  key={"n": n, "test_split": repr(tsf), "val_split": repr(vsf)}, replay={"n": n, "test_split": repr(tsf), "val_split": repr(vsf), "sizes": got})
     for n in range(0, nmax + 1):
         X = np.arange(n * 2, dtype=np.float32).reshape(n, 2) + 100
         y = np.arange(n, dtype=np.float32)
@@ -374,6 +376,9 @@ def runtime_part(run, tier, seed):
     todo += [(ints, length, vec, form) for length in range(1, 5 if tier == "quick" else 6) for vec in itertools.product(ints, repeat=length) for form in ("list", "int array")]
     # distinct floating point labels are distinct labels however close they are (and equal ones are equal): neighbouring doubles, values that differ by 1e-9, large values
     # one apart, as a list and as a float array
+    # float label sets whose smallest member is 0 and whose largest is K-1 without being the class ids 0..K-1 (a non-integral member in between), also as float32 arrays
+    for fl in ([0.0, 0.5, 2.0], [0.0, 1.5, 2.0], [0.0, 0.25, 0.5, 3.0], [0.0, 0.999, 1.0], [0.0, 2.0, 1.0000001]):
+        todo += [(fl, length, vec, form) for length in range(1, 5) for vec in itertools.product(fl, repeat=length) for form in ("list", "float array", "float32 array")]
     for fl in ([1.0, 1.0 + 1e-9, 1.0 - 1e-9, 2.0], [0.0, 1e-12, -1e-12, 5e-324], [1e8, 1e8 + 1.0, 1e8 - 1.0, 3.0], [0.1 + 0.2, 0.3, 0.30000000000000004 + 1e-16, 0.5]):
         todo += [(fl, length, vec, form) for length in range(1, 5) for vec in itertools.product(fl, repeat=length) for form in ("list", "float array")]
     if True:
@@ -381,7 +386,10 @@ def runtime_part(run, tier, seed):
             for ls, length, vec, form in todo:
                 run.rt(("onehot", str(ls[0]), length, vec, form))
                 try:
-                    enc = data.one_hot_encode(list(vec) if form == "list" else np.array(vec))
+                    arg = list(vec) if form == "list" else (np.array(vec, dtype=np.float32) if form == "float32 array" else np.array(vec))
+                    if form == "float32 array":
+                        vec = tuple(arg.tolist())          # the labels the function actually receives
+                    enc = data.one_hot_encode(arg)
                 except Exception as e:
                     run.violation(MOD + "one_hot_encode.completes", "raised %s: %s on %s" % (type(e).__name__, e, vec), key={"labels": str(type(vec[0]).__name__)}, replay={"labels": list(vec)})
                     continue
